@@ -8,11 +8,13 @@ package main
 import (
 	"fmt"
 	"go/ast"
+	goparser "go/parser"
 	"go/token"
 	"go/types"
 	"os"
 	"path/filepath"
 	"sort"
+	"strconv"
 	"strings"
 )
 
@@ -567,4 +569,102 @@ func (ec *evalCtx) scriptBeforeUseObligation(call *ast.CallExpr) {
 	}
 	ec.fc.oblige(ec.st, "sink", Select(ss.Dom, Concat(Str("script_"), name)), call.Pos(),
 		"the script template "+exprText(sel.X)+" is called from an attribute: its definition must have been emitted (registered) before this point")
+}
+
+// SweepGeneratorWrites (C01): the generated-code obligations are checked on a corpus, so an emission path of the
+// generator that no corpus template reaches would escape them. This sweep reads the generator's own source: every
+// string constant from which it builds a dynamic write - text containing "templ_7745c5c3_Buffer.WriteString(" - must
+// continue with the escaper ("templ.EscapeString("), except at the two places where the value is made safe by other
+// means: the call of a script template in an on* attribute (continues with <var>.Call, C03) and the contents of a
+// script element (writeScriptContents: the value comes from the ScriptContent* functions, C03).
+func (r *Run) SweepGeneratorWrites() {
+	path := filepath.Join(r.repo, "generator", "generator.go")
+	fset := token.NewFileSet()
+	file, err := goparser.ParseFile(fset, path, nil, 0)
+	if err != nil {
+		r.e.rejected["generator.SweepGeneratorWrites"] = err.Error()
+		return
+	}
+	const marker = "templ_7745c5c3_Buffer.WriteString("
+	n, total := 0, 0
+	for _, d := range file.Decls {
+		fd, ok := d.(*ast.FuncDecl)
+		if !ok || fd.Body == nil {
+			continue
+		}
+		// flatten every + chain into its pieces (string constants and other expressions)
+		seen := map[ast.Expr]bool{}
+		ast.Inspect(fd.Body, func(nd ast.Node) bool {
+			be, ok := nd.(ast.Expr)
+			if !ok || seen[be] {
+				return true
+			}
+			var pieces []ast.Expr
+			var flat func(e ast.Expr)
+			flat = func(e ast.Expr) {
+				seen[e] = true
+				if b, ok := e.(*ast.BinaryExpr); ok && b.Op == token.ADD {
+					flat(b.X)
+					flat(b.Y)
+					return
+				}
+				if p, ok := e.(*ast.ParenExpr); ok {
+					flat(p.X)
+					return
+				}
+				pieces = append(pieces, e)
+			}
+			switch be.(type) {
+			case *ast.BinaryExpr, *ast.BasicLit:
+				flat(be)
+			default:
+				return true
+			}
+			lit := func(e ast.Expr) (string, bool) {
+				bl, ok := e.(*ast.BasicLit)
+				if !ok || bl.Kind != token.STRING {
+					return "", false
+				}
+				s, err := strconv.Unquote(bl.Value)
+				return s, err == nil
+			}
+			for i, p := range pieces {
+				s, ok := lit(p)
+				if !ok {
+					continue
+				}
+				for off := 0; ; {
+					k := strings.Index(s[off:], marker)
+					if k < 0 {
+						break
+					}
+					total++
+					rest := s[off+k+len(marker):]
+					off += k + len(marker)
+					okWrite := false
+					switch {
+					case strings.HasPrefix(rest, "templ.EscapeString("):
+						okWrite = true
+					case rest == "" && i+2 < len(pieces):
+						if nx, isLit := lit(pieces[i+2]); isLit && strings.HasPrefix(nx, ".Call)") {
+							okWrite = true // the call text of a script template (validated name, JSON + HTML-escaped arguments: C03)
+						} else if fd.Name.Name == "writeScriptContents" {
+							okWrite = true // contents of a script element: produced by the ScriptContent* functions (C03)
+						}
+					}
+					if !okWrite {
+						n++
+						pos := fset.Position(p.Pos())
+						r.e.addObl(&Obligation{Name: fmt.Sprintf("generator.%s#dynwrite.%d", fd.Name.Name, n), Kind: "site", Func: "generator." + fd.Name.Name, Goal: False, Verdict: "sat", Solver: "engine",
+							Pos: fmt.Sprintf("%s:%d", pos.Filename, pos.Line), Note: "the generator emits a write of a dynamic value that is not wrapped in templ.EscapeString (and is neither a script template call nor script element contents): " + strconv.Quote(s)})
+					}
+				}
+			}
+			return true
+		})
+	}
+	r.e.notes = appendUnique(r.e.notes, fmt.Sprintf("generator source sweep: %d constants from which generator.go builds a dynamic write continue with templ.EscapeString( or are one of the two C03 positions", total))
+	if total == 0 {
+		r.e.addObl(&Obligation{Name: "generator#dynwrite.none", Kind: "site", Func: "generator", Goal: False, Verdict: "sat", Solver: "engine", Note: "no dynamic write found in generator/generator.go: the sweep does not recognise how the generator emits writes any more"})
+	}
 }
